@@ -494,6 +494,105 @@ Proof.
     rewrite (py_rfind1_notin d 10%N (py_len d) Hl). reflexivity.
 Qed.
 
+(* ---- indentation strings that contain newlines --------------------------------------------------------------
+   The writer drops the leading newlines of what is written at offset 0, and counts the offset from the last newline
+   written; _line_offset subtracts the part of the indentation behind its last newline (tail_line, e1f59b7). *)
+Lemma lstrip_lf_collapse X Y : collapse_aux true (py_lstrip_char X 10%N ++ Y) = collapse_aux true (X ++ Y).
+Proof.
+  induction X as [|c r IH]; [reflexivity|]. cbn [py_lstrip_char]. destruct (N.eqb_spec c 10) as [->|Hc]; [|reflexivity].
+  rewrite IH. cbn [app collapse_aux]. reflexivity.
+Qed.
+Lemma lstrip_lf_endws X : endws true (py_lstrip_char X 10%N) = endws true X.
+Proof.
+  induction X as [|c r IH]; [reflexivity|]. cbn [py_lstrip_char]. destruct (N.eqb_spec c 10) as [->|Hc]; [|reflexivity].
+  rewrite IH, endws_cons. reflexivity.
+Qed.
+Lemma lstrip_lf_app_head (i e : str) : e <> [] -> match e with c :: _ => c <> LF | [] => True end ->
+  py_lstrip_char (i ++ e) 10%N = py_lstrip_char i 10%N ++ e.
+Proof.
+  intros Hn Hh. induction i as [|c r IH]; [apply lstrip_char_id; exact Hh|].
+  cbn [app py_lstrip_char]. destruct (N.eqb c 10); [exact IH|reflexivity].
+Qed.
+Lemma lstrip_lf_all_ws i : all_ws i -> all_ws (py_lstrip_char i 10%N).
+Proof.
+  induction 1 as [|c r Hc Hr IH]; [constructor|]. cbn [py_lstrip_char]. destruct (N.eqb c 10); [exact IH|constructor; assumption].
+Qed.
+
+Lemma rfind_nat_app_notin c (a e : str) : ~ In c e -> rfind_nat c (a ++ e) = rfind_nat c a.
+Proof.
+  intros He. induction a as [|x r IH]; [exact (rfind_nat_notin c e He)|]. cbn [app rfind_nat]. rewrite IH. reflexivity.
+Qed.
+Lemma rfind_nat_lt c (s : str) j : rfind_nat c s = Some j -> (j < length s)%nat.
+Proof.
+  revert j. induction s as [|x r IH]; intros j H; [discriminate|]. cbn [rfind_nat] in H.
+  destruct (rfind_nat c r) as [i|]; [injection H as <-; specialize (IH i eq_refl); cbn [length]; lia|].
+  destruct (N.eqb x c); [injection H as <-; cbn [length]; lia|discriminate].
+Qed.
+Lemma tail_line_nolf s : ~ In LF s -> tail_line s = s.
+Proof. intros H. unfold tail_line. rewrite (rfind_nat_notin LF s H). reflexivity. Qed.
+Lemma tail_line_app_nolf (a e : str) : ~ In LF e -> tail_line (a ++ e) = tail_line a ++ e.
+Proof.
+  intros He. unfold tail_line. rewrite (rfind_nat_app_notin LF a e He). destruct (rfind_nat LF a) as [j|] eqn:E; [|reflexivity].
+  pose proof (rfind_nat_lt LF a j E) as Hj. rewrite skipn_app. replace (S j - length a)%nat with O by lia. reflexivity.
+Qed.
+Lemma tail_line_cons_lf r : tail_line (LF :: r) = tail_line r.
+Proof.
+  unfold tail_line. cbn [rfind_nat]. destruct (rfind_nat LF r) as [j|]; [reflexivity|]. reflexivity.
+Qed.
+Lemma tail_line_lstrip i : tail_line (py_lstrip_char i 10%N) = tail_line i.
+Proof.
+  induction i as [|c r IH]; [reflexivity|]. cbn [py_lstrip_char]. destruct (N.eqb_spec c 10) as [->|Hc]; [|reflexivity].
+  rewrite IH. symmetry. exact (tail_line_cons_lf r).
+Qed.
+
+(* the offset after writing, from the start of a line, something that does not end in a newline *)
+Lemma emit_off_tail st d : w_off st = 0%Z ->
+  exists d', (d' = d \/ d' = py_lstrip_char d 10%N) /\
+    (d' <> [] -> ends_lf d' = false -> w_off (snd (emit st d)) = elen (tail_line d')).
+Proof.
+  intros Ho. unfold emit. destruct (writer_shape (w_pres st) (w_off st) d) as (d' & Hd & H).
+  exists d'. split; [destruct Hd as [->|(_ & _ & ->)]; auto|]. intros Hn Hl.
+  destruct H as [[E _]|(_ & _ & [[El _]|[_ Es]])]; [congruence|unfold ends_lf in Hl; congruence|].
+  destruct (writer_call (w_pres st) (w_off st) d) as [x o']. cbn [snd w_off] in *. rewrite Es, Ho.
+  unfold tail_line, py_rfind1, py_len. rewrite Nat2Z.id, firstn_all. change 10%N with LF.
+  destruct (rfind_nat LF d') as [j|] eqn:E.
+  - pose proof (rfind_nat_lt LF d' j E) as Hj.
+    replace (Z.of_nat j =? -1)%Z with false by (symmetry; apply Z.eqb_neq; lia).
+    unfold elen, py_len. rewrite skipn_length. lia.
+  - rewrite Z.eqb_refl. unfold elen, py_len. lia.
+Qed.
+
+(* a line  i ++ e  (indentation, then text without a newline) written from the start of a line *)
+Lemma emit_off_line st (i e : str) : w_off st = 0%Z -> e <> [] -> match e with c :: _ => c <> LF | [] => True end -> ~ In LF e ->
+  w_off (snd (emit st (i ++ e))) = (elen (tail_line i) + elen e)%Z.
+Proof.
+  intros Ho Hn Hh Hl. destruct (emit_off_tail st (i ++ e) Ho) as (d' & Hd & H).
+  assert (Hd' : exists i', d' = i' ++ e /\ tail_line i' = tail_line i).
+  { destruct Hd as [->| ->]; [exists i; split; reflexivity|].
+    exists (py_lstrip_char i 10%N). split; [apply lstrip_lf_app_head; assumption|apply tail_line_lstrip]. }
+  destruct Hd' as (i' & -> & Et). rewrite H.
+  - rewrite (tail_line_app_nolf i' e Hl), Et. unfold elen, py_len. rewrite app_length. lia.
+  - destruct i'; [exact Hn|discriminate].
+  - destruct (exists_last Hn) as (e0 & c & ->). rewrite app_assoc, ends_lf_snoc.
+    destruct (N.eqb_spec c 10) as [->|]; [|reflexivity]. exfalso. apply Hl. apply in_or_app. right. left. reflexivity.
+Qed.
+
+(* a line ended by a newline: the offset is 0 afterwards, also when leading newlines of the indentation are dropped *)
+Lemma emit_off_line_lf st (i e : str) : e <> [] -> match e with c :: _ => c <> LF | [] => True end ->
+  w_off (snd (emit st (i ++ e ++ NL))) = 0%Z.
+Proof.
+  intros Hn Hh. unfold emit. destruct (writer_shape (w_pres st) (w_off st) (i ++ e ++ NL)) as (d' & Hd & H).
+  assert (Hd' : exists i', d' = i' ++ e ++ NL).
+  { destruct Hd as [->|(_ & _ & ->)]; [exists i; reflexivity|]. exists (py_lstrip_char i 10%N).
+    apply lstrip_lf_app_head; [destruct e; [congruence|discriminate]|destruct e; [congruence|exact Hh]]. }
+  destruct Hd' as (i' & ->).
+  destruct H as [[E _]|(_ & _ & [[_ Es]|[El _]])].
+  - exfalso. destruct i'; [destruct e; [congruence|discriminate]|discriminate].
+  - destruct (writer_call (w_pres st) (w_off st) (i ++ e ++ NL)). exact Es.
+  - exfalso. rewrite !app_assoc in El. change (str_eqb (py_last1 ((i' ++ e) ++ NL)) [10%N]) with (ends_lf ((i' ++ e) ++ NL)) in El.
+    rewrite ends_lf_app_NL in El. discriminate.
+Qed.
+
 Lemma esc_no_lf x : ~ In LF x -> ~ In LF (esc_text x).
 Proof.
   induction x as [|c r IH]; [exact (fun _ H => H)|]. intros H Hi.
@@ -546,6 +645,31 @@ Proof.
   - rewrite rev_app_distr. reflexivity.
   - intros E. apply Hne. rewrite E. reflexivity.
 Qed.
+Lemma ends_lf_cons c (r : str) : r <> [] -> ends_lf (c :: r) = ends_lf r.
+Proof.
+  intros Hr. destruct (exists_last Hr) as (r0 & x & ->). change (c :: r0 ++ [x]) with ((c :: r0) ++ [x]). rewrite !ends_lf_snoc. reflexivity.
+Qed.
+Lemma lstrip_lf_not_ends d : d <> [] -> ends_lf d = false -> py_lstrip_char d 10%N <> [] /\ ends_lf (py_lstrip_char d 10%N) = false.
+Proof.
+  induction d as [|c r IH]; intros Hn Hl; [congruence|]. cbn [py_lstrip_char]. destruct (N.eqb_spec c 10) as [->|Hc]; [|split; [discriminate|exact Hl]].
+  destruct r as [|c2 r2]; [exfalso; revert Hl; vm_compute; discriminate|]. rewrite ends_lf_cons in Hl by discriminate.
+  apply IH; [discriminate|exact Hl].
+Qed.
+(* writing something that does not end in a newline leaves a positive offset *)
+Lemma emit_pos st d : (0 <= w_off st)%Z -> d <> [] -> ends_lf d = false -> (0 < w_off (snd (emit st d)))%Z.
+Proof.
+  intros Ho Hn Hl. unfold emit. destruct (writer_shape (w_pres st) (w_off st) d) as (d' & Hd & H).
+  assert (Hd' : d' <> [] /\ ends_lf d' = false) by (destruct Hd as [->|(_ & _ & ->)]; [split; assumption|apply lstrip_lf_not_ends; assumption]).
+  destruct Hd' as [Hn' Hl']. destruct H as [[E _]|(_ & Ef & [[El _]|[_ Es]])]; [congruence|unfold ends_lf in Hl'; congruence|].
+  destruct (writer_call (w_pres st) (w_off st) d) as [x o']. cbn [fst snd w_off] in *.
+  rewrite Es. destruct (py_rfind1 d' 10%N (py_len d') =? -1)%Z eqn:Er.
+  - unfold py_len. destruct d'; [congruence|cbn [length]; lia].
+  - apply Z.eqb_neq in Er. pose proof (py_rfind1_bounds d' 10%N (py_len d') Er) as [Hb Hnth].
+    pose proof (ends_lf_false_last d' Hn' Hl') as Hlast. unfold py_len in *.
+    assert (Z.to_nat (py_rfind1 d' 10%N (Z.of_nat (length d'))) <> length d' - 1)%nat by (intros E; rewrite E in Hnth; exact (Hlast Hnth)).
+    lia.
+Qed.
+
 Lemma skipn_app_len {A} (a b : list A) n : skipn (length a + n) (a ++ b) = skipn n b.
 Proof. induction a as [|x r IH]; [reflexivity|]. cbn [length Nat.add app skipn]. exact IH. Qed.
 
@@ -554,39 +678,36 @@ Section TextStep.
   Variable width : Z.
   Variable req : rpath -> Z -> option Z.
   Hypothesis ind_ws : ws_indent ind = true.
-  Hypothesis ind_nolf : no_lf ind = true.
   Hypothesis width_pos : (1 <= width)%Z.
 
   Definition owed (L : nat) (st : wst) : Prop := w_off st <> 0%Z /\ available ind width L st = 0%Z.
 
   (* one write of  pre ++ k ++ sfx  (whitespace, a text in normal form, whitespace) *)
-  Lemma emit_one st pre k sfx : core k -> ws_indent pre = true -> ws_indent sfx = true ->
-    match pre with c :: _ => c <> LF | [] => True end -> (0 <= w_off st)%Z ->
-    sees (fst (emit_raw st (esc_text (pre ++ k ++ sfx)))) (pre ++ k ++ sfx) /\
-    collapse (pre ++ k ++ sfx) = optsp (negb (null pre)) ++ k ++ optsp (negb (null sfx)) /\
+  Lemma emit_one st pre k sfx : core k -> ws_indent pre = true -> ws_indent sfx = true -> (0 <= w_off st)%Z ->
+    exists pre', (pre' = pre \/ (w_off st = 0%Z /\ pre' = py_lstrip_char pre 10%N)) /\
+    sees (fst (emit_raw st (esc_text (pre ++ k ++ sfx)))) (pre' ++ k ++ sfx) /\
+    collapse (pre' ++ k ++ sfx) = optsp (negb (null pre')) ++ k ++ optsp (negb (null sfx)) /\
     (0 <= w_off (snd (emit_raw st (esc_text (pre ++ k ++ sfx)))))%Z /\
     (w_off (snd (emit_raw st (esc_text (pre ++ k ++ sfx)))) = 0%Z -> null sfx = false).
   Proof.
-    intros Hk Hp Hs Hh Ho. pose proof Hk as (Hkh & Hkl & _).
-    assert (Hhead : match pre ++ k ++ sfx with c :: _ => c <> LF | [] => True end).
-    { destruct pre as [|c r]; [|exact Hh]. cbn [app]. destruct k as [|c r]; [cbn in Hkh; tauto|]. cbn [app].
-      cbn in Hkh. intros ->. revert Hkh. vm_compute. discriminate. }
+    intros Hk Hp Hs Ho. pose proof Hk as (Hkh & Hkl & _).
+    assert (Hkn : k <> []) by (destruct k; [cbn in Hkh; tauto|discriminate]).
+    assert (Hkhead : match k ++ sfx with c :: _ => c <> LF | [] => True end).
+    { destruct k as [|c r]; [congruence|]. cbn [app]. cbn in Hkh. intros ->. revert Hkh. vm_compute. discriminate. }
     destruct (emit_esc st (pre ++ k ++ sfx)) as (X' & E & Hsee & HX & _).
-    assert (EX : X' = pre ++ k ++ sfx) by (destruct HX as [->|[_ ->]]; [reflexivity|apply lstrip_char_nolf; exact Hhead]). subst X'.
+    assert (EX : exists pre', (pre' = pre \/ (w_off st = 0%Z /\ pre' = py_lstrip_char pre 10%N)) /\ X' = pre' ++ k ++ sfx).
+    { destruct HX as [->|[H0 ->]]; [exists pre; auto|]. exists (py_lstrip_char pre 10%N). split; [auto|].
+      apply lstrip_lf_app_head; [destruct k; [congruence|discriminate]|exact Hkhead]. }
+    destruct EX as (pre' & Hpre' & ->). exists pre'. split; [exact Hpre'|].
+    assert (Hp' : ws_indent pre' = true) by (destruct Hpre' as [->|[_ ->]]; [exact Hp|apply lstrip_char_ws; exact Hp]).
     rewrite E. split; [exact Hsee|]. split.
-    - apply collapse_pad; [apply all_ws_ws_indent; exact Hp|apply all_ws_ws_indent; exact Hs|exact Hk].
+    - apply collapse_pad; [apply all_ws_ws_indent; exact Hp'|apply all_ws_ws_indent; exact Hs|exact Hk].
     - rewrite emit_raw_snd. split; [apply emit_nonneg; exact Ho|].
       intros Hz. destruct sfx as [|c r]; [|reflexivity]. exfalso. rewrite app_nil_r in Hz.
-      assert (Hm : markup (esc_text (pre ++ k))).
-      { assert (Hne : pre ++ k <> []) by (destruct pre; [destruct k; [cbn in Hkh; tauto|discriminate]|discriminate]).
-        assert (Hl : last_nows (esc_text (pre ++ k))) by (apply esc_text_last_nows; [exact Hne|apply last_nows_app; exact Hkl]).
-        repeat split.
-        - intros E0. apply esc_text_nil in E0. exact (Hne E0).
-        - rewrite app_nil_r in Hhead. destruct (pre ++ k) as [|c r] eqn:Epk; [congruence|].
-          change (esc_text (c :: r)) with (cce_lookup pp_cce_text c ++ esc_text r).
-          pose proof (esc_head_not_lf c Hhead) as H1. destruct (cce_lookup pp_cce_text c); [destruct H1|exact H1].
-        - apply last_nows_not_lf. exact Hl. }
-      destruct (emit_markup st _ Ho Hm) as [_ Hpos]. lia.
+      assert (Hne : pre ++ k <> []) by (destruct pre; [exact Hkn|discriminate]).
+      assert (Hl : last_nows (esc_text (pre ++ k))) by (apply esc_text_last_nows; [exact Hne|apply last_nows_app; exact Hkl]).
+      pose proof (emit_pos st (esc_text (pre ++ k)) Ho ltac:(intros E0; apply esc_text_nil in E0; exact (Hne E0)) (last_nows_not_lf _ Hl)) as Hpos.
+      lia.
   Qed.
 
   (* ---- writing lines: the data read back, up to what collapse can see ------------------------------------- *)
@@ -609,76 +730,113 @@ Section TextStep.
     destruct (esc_char_cases c) as [[_ E]|[_ (d & x & E & _)]]; rewrite E; reflexivity.
   Qed.
 
-  Lemma line_head_ok L u x : head_ok u -> u <> [] -> head_ok (indent ind L ++ u ++ x).
+  (* the rendering with the indentation of the first line as it was written (its leading newlines are dropped when
+     the line is written at offset 0) *)
+  Definition WR1 (i0 i : str) (us : list str) : str :=
+    match us with
+    | [] => []
+    | [u] => if null u then [] else i0 ++ u
+    | u :: r => (if null u then NL else i0 ++ u ++ NL) ++ WR i r
+    end.
+  Lemma WR1_cons i0 i u r : r <> [] -> WR1 i0 i (u :: r) = (if null u then NL else i0 ++ u ++ NL) ++ WR i r.
+  Proof. destruct r; [congruence|reflexivity]. Qed.
+  Lemma WR1_same i us : WR1 i i us = WR i us.
+  Proof. destruct us as [|u [|u2 r]]; reflexivity. Qed.
+
+  Lemma WR1_true (i0 i : str) us Y : i0 = i \/ i0 = py_lstrip_char i 10%N ->
+    collapse_aux true (WR1 i0 i us ++ Y) = collapse_aux true (WR i us ++ Y) /\ endws true (WR1 i0 i us) = endws true (WR i us).
   Proof.
-    intros Hu Hn. pose proof (indent_head_nolf ind ind_nolf L (u ++ x)) as H. unfold head_ok.
-    destruct (indent ind L ++ u ++ x) as [|c r] eqn:E; [exact I|]. intros ->.
-    assert (Hh : match u ++ x with c :: _ => N.eqb c LF = false | [] => True end).
-    { destruct u as [|c0 u0]; [congruence|]. cbn [app]. cbn in Hu. destruct (N.eqb_spec c0 LF); [congruence|reflexivity]. }
-    specialize (H Hh). cbn in H. discriminate.
+    intros [->| ->]; [rewrite WR1_same; split; reflexivity|].
+    destruct us as [|u [|u2 r]]; [split; reflexivity| |].
+    - cbn [WR1 WR]. destruct (null u); [split; reflexivity|]. rewrite <- !app_assoc. split; [apply lstrip_lf_collapse|].
+      rewrite !endws_app, lstrip_lf_endws. reflexivity.
+    - rewrite (WR1_cons _ i u (u2 :: r)) by discriminate. rewrite (WR_cons i u (u2 :: r)) by discriminate.
+      destruct (null u); [split; reflexivity|]. rewrite <- !app_assoc. split; [apply lstrip_lf_collapse|].
+      rewrite !(endws_app true), lstrip_lf_endws. reflexivity.
+  Qed.
+
+  Lemma line_strip L (u x : str) : head_ok u -> u <> [] ->
+    py_lstrip_char (indent ind L ++ u ++ x) 10%N = py_lstrip_char (indent ind L) 10%N ++ u ++ x.
+  Proof.
+    intros Hu Hn. apply lstrip_lf_app_head; [destruct u; [congruence|discriminate]|]. destruct u as [|c r]; [congruence|exact Hu].
   Qed.
 
   Lemma write_lines_calc L us : Forall head_ok us -> forall st, (0 <= w_off st)%Z ->
-    exists D, sees (fst (write_lines ind L st (map esc_text us))) D /\
+    exists D i0, (i0 = indent ind L \/ (w_off st = 0%Z /\ i0 = py_lstrip_char (indent ind L) 10%N)) /\
+      sees (fst (write_lines ind L st (map esc_text us))) D /\
       (forall b Y, (w_off st = 0%Z -> null (hd [SP] us) = true -> b = true) ->
-         collapse_aux b (D ++ Y) = collapse_aux b (WR (indent ind L) us ++ Y) /\
-         endws b D = endws b (WR (indent ind L) us)) /\
+         collapse_aux b (D ++ Y) = collapse_aux b (WR1 i0 (indent ind L) us ++ Y) /\
+         endws b D = endws b (WR1 i0 (indent ind L) us)) /\
       (0 <= w_off (snd (write_lines ind L st (map esc_text us))))%Z.
   Proof.
     induction 1 as [|u r Hu Hr IH]; intros st Ho.
-    - exists []. cbn [map write_lines fst snd WR]. split; [apply sees_nil|]. split; [intros b Y _; split; reflexivity|exact Ho].
+    - exists [], (indent ind L). cbn [map write_lines fst snd WR1]. split; [left; reflexivity|]. split; [apply sees_nil|].
+      split; [intros b Y _; split; reflexivity|exact Ho].
     - destruct r as [|u2 r'].
       + (* the last line *)
-        cbn [map write_lines WR]. rewrite null_esc. destruct (null u) eqn:En.
-        * exists []. cbn [fst snd]. split; [apply sees_nil|]. split; [intros b Y _; split; reflexivity|exact Ho].
+        cbn [map write_lines WR1]. rewrite null_esc. destruct (null u) eqn:En.
+        * exists [], (indent ind L). cbn [fst snd]. split; [left; reflexivity|]. split; [apply sees_nil|].
+          split; [intros b Y _; split; reflexivity|exact Ho].
         * assert (Hun : u <> []) by (destruct u; [discriminate|discriminate]).
           replace (indent ind L ++ esc_text u) with (esc_text (indent ind L ++ u))
             by (rewrite esc_text_app, (esc_ws_indent _ (ws_indent_indent ind ind_ws L)); reflexivity).
           destruct (emit_esc st (indent ind L ++ u)) as (X' & E & Hs & HX & _).
-          assert (EX : X' = indent ind L ++ u).
-          { destruct HX as [->|[_ ->]]; [reflexivity|]. apply lstrip_char_nolf.
-            pose proof (line_head_ok L u [] Hu Hun) as H. rewrite app_nil_r in H. exact H. }
-          subst X'. exists (indent ind L ++ u). rewrite E. split; [exact Hs|]. split; [intros b Y _; split; reflexivity|].
+          assert (EX : exists i0, (i0 = indent ind L \/ (w_off st = 0%Z /\ i0 = py_lstrip_char (indent ind L) 10%N)) /\ X' = i0 ++ u).
+          { destruct HX as [->|[H0 ->]]; [exists (indent ind L); auto|]. exists (py_lstrip_char (indent ind L) 10%N). split; [auto|].
+            pose proof (line_strip L u [] Hu Hun) as H. rewrite !app_nil_r in H. exact H. }
+          destruct EX as (i0 & Hi0 & ->). exists (i0 ++ u), i0. rewrite E. split; [exact Hi0|]. split; [exact Hs|].
+          split; [intros b Y _; split; reflexivity|].
           rewrite emit_raw_snd. apply emit_nonneg. exact Ho.
       + (* a line followed by more *)
         change (map esc_text (u :: u2 :: r')) with (esc_text u :: map esc_text (u2 :: r')).
         rewrite (write_lines_cons ind L st (esc_text u) (map esc_text (u2 :: r'))) by discriminate.
-        rewrite (WR_cons (indent ind L) u (u2 :: r')) by discriminate. rewrite null_esc.
+        rewrite null_esc.
         destruct (null u) eqn:En.
         * (* an empty line: a bare newline, dropped at the start of a line *)
           change (emit_raw st NL) with (emit_raw st (esc_text NL)).
           destruct (emit_esc st NL) as (X' & E & Hs & HX & Hsame).
           pose proof (emit_raw_nonneg st (esc_text NL) Ho) as Hn1.
           destruct (emit_raw st (esc_text NL)) as [c0 st1]. cbn [fst snd] in *. subst c0.
-          destruct (IH st1 Hn1) as (D & HsD & Hc & Hn2).
+          destruct (IH st1 Hn1) as (D & i1 & Hi1 & HsD & Hc & Hn2).
           destruct (write_lines ind L st1 (map esc_text (u2 :: r'))) as [cs st2]. cbn [fst snd] in *.
-          exists (X' ++ D). split; [apply sees_app; assumption|]. split; [|exact Hn2].
-          intros b Y Hb. destruct HX as [->|[H0 ->]].
+          exists (X' ++ D), (indent ind L). split; [left; reflexivity|]. split; [apply sees_app; assumption|]. split; [|exact Hn2].
+          intros b Y Hb. rewrite (WR1_cons (indent ind L) (indent ind L) u (u2 :: r')) by discriminate. rewrite En.
+          assert (Hi1' : i1 = indent ind L \/ i1 = py_lstrip_char (indent ind L) 10%N) by (destruct Hi1 as [->|[_ ->]]; auto).
+          destruct HX as [->|[H0 ->]].
           -- rewrite <- !app_assoc. rewrite !(collapse_aux_app NL), !(endws_app _ NL).
-             destruct (Hc (endws b NL) Y) as [E1 E2]; [intros _ _; unfold endws; reflexivity|].
-             split; [f_equal; exact E1|exact E2].
+             replace (endws b NL) with true by (unfold endws; reflexivity).
+             destruct (Hc true Y (fun _ _ => eq_refl)) as [E1 E2].
+             destruct (WR1_true i1 (indent ind L) (u2 :: r') Y Hi1') as [E3 E4].
+             split; [f_equal; rewrite E1; exact E3|rewrite E2; exact E4].
           -- assert (Estrip : py_lstrip_char NL 10%N = []) by reflexivity. rewrite Estrip in *.
              specialize (Hsame eq_refl). subst st1.
              specialize (Hb H0 En). subst b. destruct (Hc true Y (fun _ _ => eq_refl)) as [E1 E2].
+             destruct (WR1_true i1 (indent ind L) (u2 :: r') Y Hi1') as [E3 E4].
              change ([] ++ D) with D. rewrite <- (app_assoc NL). rewrite (collapse_aux_app NL), (endws_app _ NL).
              replace (collapse_aux true NL) with (@nil char) by reflexivity.
-             replace (endws true NL) with true by reflexivity. cbn [app]. split; assumption.
+             replace (endws true NL) with true by reflexivity. cbn [app]. split; [rewrite E1; exact E3|rewrite E2; exact E4].
         * assert (Hun : u <> []) by (destruct u; [discriminate|discriminate]).
           replace (indent ind L ++ esc_text u ++ NL) with (esc_text (indent ind L ++ u ++ NL))
             by (rewrite !esc_text_app, (esc_ws_indent _ (ws_indent_indent ind ind_ws L)); reflexivity).
           destruct (emit_esc st (indent ind L ++ u ++ NL)) as (X' & E & Hs & HX & _).
-          assert (EX : X' = indent ind L ++ u ++ NL).
-          { destruct HX as [->|[_ ->]]; [reflexivity|]. apply lstrip_char_nolf. exact (line_head_ok L u NL Hu Hun). }
-          subst X'. pose proof (emit_raw_nonneg st (esc_text (indent ind L ++ u ++ NL)) Ho) as Hn1.
+          assert (EX : exists i0, (i0 = indent ind L \/ (w_off st = 0%Z /\ i0 = py_lstrip_char (indent ind L) 10%N)) /\ X' = i0 ++ u ++ NL).
+          { destruct HX as [->|[H0 ->]]; [exists (indent ind L); auto|]. exists (py_lstrip_char (indent ind L) 10%N). split; [auto|].
+            exact (line_strip L u NL Hu Hun). }
+          destruct EX as (i0 & Hi0 & ->).
+          pose proof (emit_raw_nonneg st (esc_text (indent ind L ++ u ++ NL)) Ho) as Hn1.
           destruct (emit_raw st (esc_text (indent ind L ++ u ++ NL))) as [c0 st1]. cbn [fst snd] in *. subst c0.
-          destruct (IH st1 Hn1) as (D & HsD & Hc & Hn2).
+          destruct (IH st1 Hn1) as (D & i1 & Hi1 & HsD & Hc & Hn2).
           destruct (write_lines ind L st1 (map esc_text (u2 :: r'))) as [cs st2]. cbn [fst snd] in *.
-          exists ((indent ind L ++ u ++ NL) ++ D). split; [apply sees_app; assumption|]. split; [|exact Hn2].
-          intros b Y _. rewrite <- !(app_assoc (indent ind L ++ u ++ NL)).
-          rewrite !(collapse_aux_app (indent ind L ++ u ++ NL)), !(endws_app _ (indent ind L ++ u ++ NL)).
-          assert (Ee : endws b (indent ind L ++ u ++ NL) = true).
+          exists ((i0 ++ u ++ NL) ++ D), i0. split; [exact Hi0|]. split; [apply sees_app; assumption|]. split; [|exact Hn2].
+          intros b Y _. rewrite (WR1_cons i0 (indent ind L) u (u2 :: r')) by discriminate. rewrite En.
+          assert (Hi1' : i1 = indent ind L \/ i1 = py_lstrip_char (indent ind L) 10%N) by (destruct Hi1 as [->|[_ ->]]; auto).
+          rewrite <- !(app_assoc (i0 ++ u ++ NL)).
+          rewrite !(collapse_aux_app (i0 ++ u ++ NL)), !(endws_app _ (i0 ++ u ++ NL)).
+          assert (Ee : endws b (i0 ++ u ++ NL) = true).
           { rewrite !endws_app. unfold endws at 1. reflexivity. }
-          rewrite Ee. destruct (Hc true Y (fun _ _ => eq_refl)) as [E1 E2]. split; [f_equal; exact E1|exact E2].
+          rewrite Ee. destruct (Hc true Y (fun _ _ => eq_refl)) as [E1 E2].
+          destruct (WR1_true i1 (indent ind L) (u2 :: r') Y Hi1') as [E3 E4].
+          split; [f_equal; rewrite E1; exact E3|rewrite E2; exact E4].
   Qed.
 
   Lemma WR_nonempty i us : Forall (fun u : str => u <> []) us -> us <> [] ->
@@ -694,22 +852,19 @@ Section TextStep.
       rewrite join_cons2. rewrite <- !app_assoc. split; reflexivity.
   Qed.
 
-  Lemma elen_indent L : elen (indent ind L) = ilen ind L.
+  Lemma WR1_nonempty i0 i us : Forall (fun u : str => u <> []) us -> us <> [] ->
+    WR1 i0 i us = i0 ++ py_join (NL ++ i) us /\ WR1 i0 i (us ++ [[]]) = i0 ++ py_join (NL ++ i) us ++ NL.
   Proof.
-    unfold elen, py_len, ilen, indent. induction L as [|n IH]; [reflexivity|].
-    cbn [repeat_str]. rewrite app_length, Nat2Z.inj_add, IH. unfold elen, py_len. lia.
+    intros HF Hn. destruct us as [|u r]; [congruence|]. inversion HF as [|? ? Hu Hr]; subst.
+    assert (Enu : null u = false) by (destruct u; [congruence|reflexivity]).
+    destruct r as [|u2 r'].
+    - cbn [WR1 WR app py_join null]. rewrite Enu. rewrite app_nil_r. split; reflexivity.
+    - change ((u :: u2 :: r') ++ [[]]) with (u :: (u2 :: r') ++ [[]]).
+      rewrite (WR1_cons i0 i u (u2 :: r')) by discriminate. rewrite (WR1_cons i0 i u ((u2 :: r') ++ [[]])) by discriminate.
+      rewrite Enu. destruct (WR_nonempty i (u2 :: r') Hr ltac:(discriminate)) as [E1 E2]. rewrite E1, E2.
+      rewrite join_cons2. rewrite <- !app_assoc. split; reflexivity.
   Qed.
 
-  Lemma esc_line_head_ok L u x : head_ok u -> u <> [] -> match indent ind L ++ esc_text u ++ x with c :: _ => c <> LF | [] => True end.
-  Proof.
-    intros Hu Hn. destruct u as [|c0 u0]; [congruence|]. cbn in Hu.
-    change (esc_text (c0 :: u0)) with (cce_lookup pp_cce_text c0 ++ esc_text u0).
-    pose proof (esc_head_not_lf c0 Hu) as H1. destruct (cce_lookup pp_cce_text c0) as [|d y] eqn:E; [destruct H1|].
-    pose proof (indent_head_nolf ind ind_nolf L ((d :: y) ++ esc_text u0 ++ x)) as H.
-    destruct (indent ind L ++ ((d :: y) ++ esc_text u0) ++ x) as [|c r] eqn:E2; [exact I|].
-    intros ->. rewrite <- app_assoc in E2. rewrite E2 in H. cbn in H.
-    assert (Hd : N.eqb d LF = false) by (destruct (N.eqb_spec d LF); [congruence|reflexivity]). specialize (H Hd). discriminate.
-  Qed.
 
   (* the state before the last line of a list of lines is written *)
   Lemma write_lines_last L ini u : u <> [] -> Forall head_ok ini -> forall st,
@@ -724,10 +879,8 @@ Section TextStep.
       rewrite null_esc.
       assert (H1 : w_off (snd (if null x then emit_raw st NL else emit_raw st (indent ind L ++ esc_text x ++ NL))) = 0%Z).
       { destruct (null x) eqn:En; rewrite emit_raw_snd; [apply emit_NL_off|].
-        apply emit_off_lf.
-        - replace (indent ind L ++ esc_text x ++ NL) with ((indent ind L ++ esc_text x) ++ NL) by (rewrite <- app_assoc; reflexivity).
-          apply ends_lf_app_NL.
-        - apply esc_line_head_ok; [exact Hx|destruct x; [discriminate|discriminate]]. }
+        assert (Hxn : x <> []) by (destruct x; [discriminate|discriminate]).
+        apply emit_off_line_lf; [intros E0; apply esc_text_nil in E0; exact (Hxn E0)|apply esc_head_ok; exact Hx]. }
       destruct (if null x then emit_raw st NL else emit_raw st (indent ind L ++ esc_text x ++ NL)) as [c0 st1]. cbn [snd] in H1.
       destruct (IH st1) as (stb & E & Hn & He & Hne).
       destruct (write_lines ind L st1 (map esc_text (r ++ [u]))) as [cs st2]. cbn [snd] in *.
@@ -816,12 +969,6 @@ Section TextStep.
            else finish_e L is_last la next_sib c st1 ([[]] ++ wrap_lines (py_slice_from content (elen filling + 1)) width).
   Proof. reflexivity. Qed.
 
-  Lemma indent_no_lf L : ~ In LF (indent ind L).
-  Proof.
-    unfold indent. induction L as [|n IH]; [exact (fun H => H)|]. cbn [repeat_str]. intros Hi. apply in_app_or in Hi as [Hi|Hi]; [|exact (IH Hi)].
-    pose proof ind_nolf as Hn. unfold no_lf in Hn. rewrite forallb_forall in Hn. specialize (Hn LF Hi). discriminate.
-  Qed.
-
   Lemma finish_nz L is_last la next_sib pre st us i0 :
     (0 < w_off st)%Z -> (is_last = true -> la = true) -> (next_sib <> None -> is_last = false) ->
     us <> [] -> last us [] <> [] -> ~ In LF (last us []) -> head_ok (last us []) -> Forall head_ok (removelast us) -> all_ws i0 ->
@@ -855,15 +1002,15 @@ Section TextStep.
       by (cbn [map app]; rewrite map_app; destruct T; reflexivity).
     assert (Hok2 : Forall head_ok ([] :: upd us T ++ (if T then [[]] else []))).
     { constructor; [exact I|]. apply Forall_app. split; [exact Hok|]. destruct T; [constructor; [exact I|constructor]|constructor]. }
-    destruct (write_lines_calc L _ Hok2 st ltac:(lia)) as (D & HsD & HcD & HnD).
+    destruct (write_lines_calc L _ Hok2 st ltac:(lia)) as (D & i0w & _ & HsD & HcD & HnD).
     exists (fst (write_lines ind L st (map esc_text ([] :: upd us T ++ (if T then [[]] else []))))), D, T.
     destruct (write_lines ind L st (map esc_text ([] :: upd us T ++ (if T then [[]] else [])))) as [cs st'] eqn:Ewl. cbn [fst snd] in *.
     split; [reflexivity|]. split; [exact HsD|]. split; [|split; [exact HTla|split; [exact HnD|]]].
     - intros b Y. destruct (HcD b Y ltac:(intros H; lia)) as [E _]. rewrite E.
       assert (Hune : upd us T ++ (if T then [[]] else []) <> []).
       { unfold upd. destruct T; [intros E0; apply app_eq_nil in E0 as [_ E0]; discriminate|rewrite app_nil_r; exact Hne]. }
-      match goal with |- context [WR (indent ind L) (?h :: ?XX)] =>
-        replace (WR (indent ind L) (h :: XX)) with (NL ++ WR (indent ind L) XX) by (symmetry; exact (WR_cons (indent ind L) [] XX Hune)) end.
+      match goal with |- context [WR1 i0w (indent ind L) (?h :: ?XX)] =>
+        replace (WR1 i0w (indent ind L) (h :: XX)) with (NL ++ WR (indent ind L) XX) by (symmetry; exact (WR1_cons i0w (indent ind L) [] XX Hune)) end.
       rewrite <- !app_assoc. rewrite !(collapse_aux_app NL). f_equal.
       destruct T.
       + rewrite EW2, <- !app_assoc. rewrite !(collapse_aux_app i0). f_equal. rewrite Ej, <- !app_assoc.
@@ -877,12 +1024,10 @@ Section TextStep.
       assert (Hun : un <> []) by exact Hlast.
       destruct (write_lines_last L ([] :: ini) un Hun ltac:(constructor; [exact I|exact Hhr]) st) as (stb & Estb & _ & _ & Hb1).
       assert (E3 : snd (write_lines ind L st (map esc_text ([] :: ini ++ [un]))) = snd (emit stb (indent ind L ++ esc_text un))) by exact Estb.
-      rewrite Ewl in E3. cbn [snd] in E3. rewrite E3. rewrite emit_off_exact.
-      + rewrite (Hb1 ltac:(discriminate)). unfold elen at 1, py_len. rewrite app_length, Nat2Z.inj_add.
-        fold (py_len (indent ind L)). fold (elen (indent ind L)). rewrite elen_indent. unfold elen, py_len. lia.
-      + destruct (indent ind L); [intros E; apply esc_text_nil in E; congruence|discriminate].
-      + pose proof (esc_line_head_ok L un [] Hhl Hun) as H. rewrite app_nil_r in H. exact H.
-      + intros Hi. apply in_app_or in Hi as [Hi|Hi]; [exact (indent_no_lf L Hi)|exact (esc_no_lf un Hnolf Hi)].
+      rewrite Ewl in E3. cbn [snd] in E3. rewrite E3.
+      rewrite (emit_off_line stb (indent ind L) (esc_text un) (Hb1 ltac:(discriminate))
+                 ltac:(intros E; apply esc_text_nil in E; congruence) (esc_head_ok un Hhl) (esc_no_lf un Hnolf)).
+      reflexivity.
   Qed.
 
   (* the facts finish_nz needs, for the line lists that occur: a first line that is empty, or begins with the text's
@@ -982,14 +1127,6 @@ Section TextStep.
     Definition pre_of : str := if (w_off st =? 0)%Z then indent ind L else optsp lead.
     Lemma pre_of_ws : ws_indent pre_of = true.
     Proof. unfold pre_of. destruct (w_off st =? 0)%Z; [apply ws_indent_indent; exact ind_ws|apply ws_indent_optsp]. Qed.
-    Lemma pre_of_head : match pre_of with c :: _ => c <> LF | [] => True end.
-    Proof.
-      unfold pre_of. destruct (w_off st =? 0)%Z.
-      - pose proof (indent_head_nolf ind ind_nolf L [] I) as H. rewrite app_nil_r in H.
-        destruct (indent ind L) as [|c r]; [exact I|]. intros ->. discriminate.
-      - destruct lead; [discriminate|exact I].
-    Qed.
-
     (* the text written in one piece, followed by a newline (if that is legal) or by its own trailing space *)
     Lemma one_piece_post sfx : (sfx = NL /\ legit_after (Text s) next = true) \/ sfx = optsp trail ->
       tstep_post L st (snd (emit_raw st (esc_text (pre_of ++ k ++ sfx)))) (fst (emit_raw st (esc_text (pre_of ++ k ++ sfx))))
@@ -997,14 +1134,16 @@ Section TextStep.
     Proof.
       intros Hsfx.
       assert (Hws : ws_indent sfx = true) by (destruct Hsfx as [[-> _]| ->]; [reflexivity|apply ws_indent_optsp]).
-      destruct (emit_one st pre_of k sfx Hk pre_of_ws Hws pre_of_head (proj1 Hinv)) as (Hs & Hc & Hn & Hz).
-      exists (pre_of ++ k ++ sfx), (negb (null pre_of)), (negb (null sfx)).
+      destruct (emit_one st pre_of k sfx Hk pre_of_ws Hws (proj1 Hinv)) as (pre' & Hpre' & Hs & Hc & Hn & Hz).
+      assert (Hnz : w_off st <> 0%Z -> pre' = optsp lead).
+      { intros H0. destruct Hpre' as [->|[H1 _]]; [|congruence]. unfold pre_of.
+        replace (w_off st =? 0)%Z with false by (symmetry; apply Z.eqb_neq; exact H0). reflexivity. }
+      exists (pre' ++ k ++ sfx), (negb (null pre')), (negb (null sfx)).
       split; [exact Hs|]. split; [exact Hc|]. split; [|split; [|split; [|split; [|split]]]].
-      - intros Hl. unfold pre_of. destruct (w_off st =? 0)%Z eqn:E0.
-        + right. apply Z.eqb_eq in E0. exact (proj2 (off0_lb E0)).
-        + left. rewrite Hl. reflexivity.
-      - intros Hp Hl. pose proof (nolead_off Hp Hl) as H0. unfold pre_of.
-        destruct (w_off st =? 0)%Z eqn:E0; [apply Z.eqb_eq in E0; congruence|]. rewrite Hl. reflexivity.
+      - intros Hl. destruct (Z.eq_dec (w_off st) 0) as [E0|E0].
+        + right. exact (proj2 (off0_lb E0)).
+        + left. rewrite (Hnz E0), Hl. reflexivity.
+      - intros Hp Hl. pose proof (nolead_off Hp Hl) as H0. rewrite (Hnz H0), Hl. reflexivity.
       - intros Hb. destruct Hsfx as [[_ Hla]| ->]; [exact Hla|]. apply la_trail. destruct trail; [reflexivity|discriminate].
       - intros Ht. left. destruct Hsfx as [[-> _]| ->]; [reflexivity|rewrite Ht; reflexivity].
       - exact Hn.
@@ -1113,7 +1252,9 @@ Section TextStep.
         by (rewrite map_app; destruct T; reflexivity).
       assert (Hok2 : Forall head_ok (upd us T ++ (if T then [[]] else []))).
       { apply Forall_app. split; [exact Hok|]. destruct T; [constructor; [exact I|constructor]|constructor]. }
-      destruct (write_lines_calc L _ Hok2 st (proj1 Hinv)) as (D & HsD & HcD & HnD).
+      destruct (write_lines_calc L _ Hok2 st (proj1 Hinv)) as (D & i0 & Hi0 & HsD & HcD & HnD).
+      assert (Hi0ws : all_ws i0).
+      { destruct Hi0 as [->|[_ ->]]; [apply all_ws_indent; exact ind_ws|apply lstrip_lf_all_ws; apply all_ws_indent; exact ind_ws]. }
       assert (Hhd : null (hd [SP] (upd us T ++ (if T then [[]] else []))) = false).
       { destruct (upd us T) as [|u0 r0] eqn:Eu; [congruence|]. inversion Hnn; subst. cbn. destruct u0; [congruence|reflexivity]. }
       destruct (HcD false [] ltac:(intros _ H; rewrite Hhd in H; discriminate)) as [EcD _]. rewrite !app_nil_r in EcD.
@@ -1123,26 +1264,26 @@ Section TextStep.
       { destruct c; [destruct (Hc1 eq_refl) as [Htr ->]; exists false; rewrite app_nil_r; repeat split; congruence|].
         exists trail. rewrite (Hc0 eq_refl). repeat split; congruence. }
       destruct Ht0 as (tr0 & Et0 & Htr0 & Hc0' & Hc1').
-      destruct (WR_nonempty (indent ind L) (upd us T) Hnn Hune) as [EW1 EW2].
-      assert (Hform : collapse D = optsp (negb (null (indent ind L))) ++ k ++ optsp (T || tr0)).
-      { unfold collapse. rewrite EcD. fold (collapse (WR (indent ind L) (upd us T ++ (if T then [[]] else [])))).
+      destruct (WR1_nonempty i0 (indent ind L) (upd us T) Hnn Hune) as [EW1 EW2].
+      assert (Hform : collapse D = optsp (negb (null i0)) ++ k ++ optsp (T || tr0)).
+      { unfold collapse. rewrite EcD. fold (collapse (WR1 i0 (indent ind L) (upd us T ++ (if T then [[]] else [])))).
         destruct T.
         - rewrite EW2.
           (* the stripped trailing whitespace does not show next to the newline *)
-          assert (E1 : collapse (indent ind L ++ py_join sep (upd us true) ++ NL) = collapse (indent ind L ++ py_join sep us ++ NL)).
-          { unfold collapse. rewrite !(collapse_aux_app (indent ind L)). f_equal. rewrite Ej, <- app_assoc.
+          assert (E1 : collapse (i0 ++ py_join sep (upd us true) ++ NL) = collapse (i0 ++ py_join sep us ++ NL)).
+          { unfold collapse. rewrite !(collapse_aux_app i0). f_equal. rewrite Ej, <- app_assoc.
             rewrite !(collapse_aux_app (py_join sep (upd us true))). f_equal.
             destruct (ws_block w NL Hw all_ws_NL ltac:(discriminate)
-                        (endws (endws false (indent ind L)) (py_join sep (upd us true))) []) as [Hb _].
+                        (endws (endws false i0) (py_join sep (upd us true))) []) as [Hb _].
             rewrite !app_nil_r in Hb. symmetry. exact Hb. }
-          rewrite E1. rewrite (collapse_replace _ t0 (indent ind L) NL Hcol). rewrite Et0, <- app_assoc.
-          rewrite (collapse_pad (indent ind L) k (optsp tr0 ++ NL)); [|apply all_ws_indent; exact ind_ws|apply all_ws_app; [apply all_ws_optsp|apply all_ws_NL]|exact Hk].
+          rewrite E1. rewrite (collapse_replace _ t0 i0 NL Hcol). rewrite Et0, <- app_assoc.
+          rewrite (collapse_pad i0 k (optsp tr0 ++ NL)); [|exact Hi0ws|apply all_ws_app; [apply all_ws_optsp|apply all_ws_NL]|exact Hk].
           replace (null (optsp tr0 ++ NL)) with false by (destruct tr0; reflexivity). reflexivity.
         - rewrite app_nil_r, EW1. change (upd us false) with us. rewrite <- (app_nil_r (py_join sep us)).
-          rewrite (collapse_replace _ t0 (indent ind L) [] Hcol). rewrite app_nil_r, Et0.
-          rewrite (collapse_pad (indent ind L) k (optsp tr0)); [|apply all_ws_indent; exact ind_ws|apply all_ws_optsp|exact Hk].
+          rewrite (collapse_replace _ t0 i0 [] Hcol). rewrite app_nil_r, Et0.
+          rewrite (collapse_pad i0 k (optsp tr0)); [|exact Hi0ws|apply all_ws_optsp|exact Hk].
           destruct tr0; reflexivity. }
-      exists D, (negb (null (indent ind L))), (T || tr0)%bool.
+      exists D, (negb (null i0)), (T || tr0)%bool.
       split; [exact HsD|]. split; [exact Hform|]. split; [intros _; right; exact Hp|]. split.
       { intros Hpn Hl. exfalso. exact (nolead_off Hpn Hl H0). }
       split.
@@ -1164,15 +1305,10 @@ Section TextStep.
       rewrite Ewl in E3. cbn [snd] in E3. clear Estb. rename E3 into Estb.
       assert (Hob : w_off stb = 0%Z) by (destruct ini; [rewrite (Hb0 eq_refl); exact H0|apply Hb1; discriminate]).
       assert (Eoff : w_off st' = (ilen ind L + elen (esc_text un))%Z).
-      { rewrite Estb. rewrite emit_off_exact.
-        - rewrite Hob. unfold elen at 1, py_len. rewrite app_length, Nat2Z.inj_add. fold (py_len (indent ind L)). fold (elen (indent ind L)).
-          rewrite elen_indent. unfold elen, py_len. lia.
-        - destruct (indent ind L); [intros E; apply esc_text_nil in E; congruence|discriminate].
-        - pose proof (esc_line_head_ok L un [] Hun2 Hun1) as H. rewrite app_nil_r in H. exact H.
-        - intros Hi. apply in_app_or in Hi as [Hi|Hi]; [|exact (Hnolf Hi)].
-          pose proof (indent_head_nolf ind ind_nolf) as _. clear - Hi ind_nolf.
-          unfold indent in Hi. induction L as [|n IH]; [destruct Hi|]. cbn [repeat_str] in Hi. apply in_app_or in Hi as [Hi|Hi]; [|exact (IH Hi)].
-          unfold no_lf in ind_nolf. rewrite forallb_forall in ind_nolf. specialize (ind_nolf LF Hi). discriminate. }
+      { rewrite Estb.
+        rewrite (emit_off_line stb (indent ind L) (esc_text un) Hob
+                   ltac:(intros E; apply esc_text_nil in E; congruence) (esc_head_ok un Hun2) Hnolf).
+        reflexivity. }
       assert (Hpos : (0 < elen (esc_text un))%Z).
       { unfold elen, py_len. destruct (esc_text un) eqn:E; [apply esc_text_nil in E; congruence|cbn [length]; lia]. }
       assert (Hil : (0 <= ilen ind L)%Z) by (unfold ilen, elen, py_len; lia).
